@@ -63,6 +63,7 @@ fn interfering_poll(_site: u32) {
 #[kani::proof]
 #[kani::unwind(4)]
 fn c12_done_races_poll() {
+    unsafe { vs::MONITOR = true; }
     let ack = CommandAcknowledgement::new();
     vk_classify(&ack);
     let status = any_final_status();
@@ -113,6 +114,7 @@ fn c12_done_races_poll() {
     kani::cover!(fired && unsafe { I_RESULT == Some(Poll::Pending) }, "racing poll was told Pending");
     kani::cover!(fired && unsafe { matches!(I_RESULT, Some(Poll::Ready(_))) }, "racing poll saw completion");
     kani::cover!(!fired, "no racing poll");
+    vs::edge_covers();
 }
 
 /// C12 (reverse nesting): the worker's whole done() placed by the solver at any shared access of poll().
